@@ -296,6 +296,16 @@ Definition mon_live (c : c10_case) : bool :=
   | _ => true
   end.
 
+(* 11: staking rewards the module receives for a validator are split among its delegators: they
+   reach the reward saver, they are not left on the module account (x/distribution pays the
+   pending rewards of a delegation to the delegator, here the module account, whenever the
+   delegation changes) *)
+Definition mon_noleak (c : c10_case) : bool :=
+  match c_op c with
+  | ODelegate _ _ _ _ | OUndelegate _ _ _ _ _ => forallb (fun x => x <=? 0) (c_leak c)
+  | _ => true
+  end.
+
 (* triggers of the known findings *)
 (* 1: the module's (delegator, validator) pair is at staking's max_entries *)
 Definition trig_entries (c : c10_case) : bool :=
@@ -311,6 +321,9 @@ Definition trig_zero_cost (c : c10_case) : bool :=
   | _ => false
   end.
 
+(* 3: the delegation had pending rewards when the message changed it *)
+Definition trig_leak (c : c10_case) : bool := existsb (fun x => 0 <? x) (c_leak c).
+
 Definition c10_check (a : c10_any) : list Z :=
   match a with
   | CPure p => flag 0 (pure_corr p)
@@ -318,8 +331,8 @@ Definition c10_check (a : c10_any) : list Z :=
       flag 0 (corr c) ++ flag 1 (mon_backed c) ++ flag 2 (mon_send c) ++ flag 3 (mon_available c) ++
       flag 4 (mon_paid c) ++ flag 5 (mon_entitled c) ++ flag 6 (mon_second c) ++
       flag 7 (mon_solvent c) ++ flag 8 (mon_noblock c) ++ flag 9 (mon_burns c) ++
-      flag 10 (mon_live c) ++
-      flag 101 (negb (trig_entries c)) ++ flag 102 (negb (trig_zero_cost c))
+      flag 10 (mon_live c) ++ flag 11 (mon_noleak c) ++
+      flag 101 (negb (trig_entries c)) ++ flag 102 (negb (trig_zero_cost c)) ++ flag 103 (negb (trig_leak c))
   end.
 
 Definition run := run_cases c10_check.
